@@ -37,6 +37,18 @@ def make_model(name):
             "logreg": lambda: LogisticRegression()}[name]()
 
 
+def make_utility(kind, model):
+    from datascope.importance.utility import (SklearnModelAccuracy, SklearnModelRocAuc, SklearnModelEqualizedOddsDifference,
+                                              JointUtility)
+    if kind == "auc":
+        return SklearnModelRocAuc(model)
+    if kind == "eod":
+        return SklearnModelEqualizedOddsDifference(model, sensitive_features=2)
+    if kind == "joint":
+        return JointUtility(SklearnModelAccuracy(model), SklearnModelRocAuc(model), weights=[0.5, 2.0])
+    return SklearnModelAccuracy(model)
+
+
 def make_provenance(kind, n):
     import numpy as np
     from datascope.utility.provenance import Provenance, Units, Conjunction
@@ -66,7 +78,10 @@ def score_hex(cfg, hook=None):
                            ties=bool(cfg.get("ties")))
     if cfg.get("ties"):
         Xv = np.round(Xv)
-    util = SklearnModelAccuracy(make_model(cfg["model"]))
+    util = make_utility(cfg.get("utility", "accuracy"), make_model(cfg["model"]))
+    if cfg.get("utility") == "eod":      # a discrete "sensitive" feature column for the equalized-odds utility
+        X = np.hstack([X, (np.arange(len(X)) % 2).reshape(-1, 1).astype(float)])
+        Xv = np.hstack([Xv, (np.arange(len(Xv)) // 2 % 2).reshape(-1, 1).astype(float)])
     kw = dict(cfg.get("kw", {}))
     imp = ShapleyImportance(method=cfg["method"], utility=util, seed=cfg["seed"], **kw)
     if hook is not None:
